@@ -252,7 +252,7 @@ func genCase(t *rapid.T) Case {
 	}
 
 	c.Scopes = genScopes(t, c.Flow)
-	c.User = rapid.SampledFrom(vkit.UserIDs).Draw(t, "user")
+	c.User = rapid.SampledFrom(vkit.AllUserIDs).Draw(t, "user")
 	c.Nonce = rapid.SampledFrom([]string{"", "n-0S6_WzA2Mj", "nonce with space", "n"}).Draw(t, "nonce")
 	c.State = rapid.SampledFrom([]string{"", "st-1"}).Draw(t, "state")
 	if strings.HasPrefix(c.Flow, "implicit") {
